@@ -308,7 +308,10 @@ func (w *c14World) apply(op c14Op) (skip bool, err error) {
 		return false, w.tps.Add(security.ProviderConfig{Name: op.C, Type: "basic",
 			User: &security.ValueReader{Type: "text", Value: "u"}, Password: &security.ValueReader{Type: "text", Value: "pw"}})
 	case "delprov":
-		if _, err := w.tps.GetProviderConfig(op.C); err != nil {
+		// a name is known if its configuration can be fetched under it or a provider answers to it (lookups of
+		// providers in use are by lower-cased name)
+		_, usable := w.tps.Get(strings.ToLower(op.C))
+		if _, err := w.tps.GetProviderConfig(op.C); err != nil && !usable {
 			return true, nil
 		}
 		return false, w.tps.DeleteProvider(op.C)
@@ -455,6 +458,11 @@ func (w *c14World) observe() []string {
 		}
 		sort.Strings(ps)
 		add("providers %v", ps)
+	}
+	// which provider names a job or proxy dataset could authenticate with right now
+	for _, n := range []string{"p1", "p2"} {
+		_, ok := w.tps.Get(n)
+		add("provider-usable %s=%v", n, ok)
 	}
 	return l
 }
@@ -691,7 +699,7 @@ func c14Key(w *c14World, obs []string) string {
 	var extra []string
 	for _, x := range obs {
 		switch {
-		case strings.HasPrefix(x, "datasets "), strings.HasPrefix(x, "scheduled "), strings.HasPrefix(x, "event-"), strings.HasPrefix(x, "client "), strings.HasPrefix(x, "acl "), strings.HasPrefix(x, "providers "):
+		case strings.HasPrefix(x, "datasets "), strings.HasPrefix(x, "scheduled "), strings.HasPrefix(x, "event-"), strings.HasPrefix(x, "client "), strings.HasPrefix(x, "acl "), strings.HasPrefix(x, "providers "), strings.HasPrefix(x, "provider-usable "):
 			extra = append(extra, x)
 		case strings.HasPrefix(x, "job ") && !strings.Contains(x, " state "):
 			extra = append(extra, x)
@@ -752,6 +760,9 @@ func c14Alphabet(wide bool) []c14Op {
 			c14Op{K: "setacl", C: "c1", N: 1},
 			c14Op{K: "delacl", C: "c2"},
 			c14Op{K: "delprov", C: "p1"},
+			c14Op{K: "addprov", C: "P2"},
+			c14Op{K: "delprov", C: "P2"},
+			c14Op{K: "delprov", C: "p2"},
 		)
 	}
 	return ops
